@@ -38,8 +38,9 @@ class Input(symval.Node):
             else:
                 start = len(ctx.vars)
                 node = symval.plan(ft, ctx)
-                if len(bad) > 1:
-                    ctx.pin_from(start)
+                # the inner shape of a VALID field (list length, None-ness, pool choice) is not what this obligation is about:
+                # pinned (scalars stay symbolic, presence of the key stays symbolic)
+                ctx.pin_from(start)
                 self.fields.append((n, key, flag, "valid", node, ft))
         extra = [f.name for f in __import__("dataclasses").fields(T) if not f.init]
         self.strangers = [(s, ctx.new("p", "bool"), symval.Const(1)) for s in list(strangers) + extra] if len(bad) < 2 else []
@@ -47,7 +48,7 @@ class Input(symval.Node):
         self.by_name = []
         if oracle.cfg(T, "allow_deserialization_not_by_alias", False) and len(bad) < 2:
             for n, key, flag, mode, node, ft in self.fields:
-                if key != n:
+                if key != n and (n in bad or not bad):
                     self.by_name.append((n, ctx.new("p", "bool"), ctx.new("i", "int")))
 
     def make(self, env):
